@@ -478,10 +478,9 @@ def _f56(vio):
         bool({"datetime", "timedelta"} & _obj_kinds(vio))
 
 
-@mechanism("F57-builder-clear-length")
-def _f57(vio):
-    det = vio.get("detail") or {}
-    return vio.get("kind") == "clear" and det.get("length_after_clear") == -1
+@mechanism("F64-builder-clear-inside-union")
+def _f64(vio):
+    return vio.get("kind") in ("clear-replay-raised", "clear-replay-differs")
 
 
 @mechanism("F59-builder-tuples-of-different-size")
